@@ -73,6 +73,15 @@ def insert_is_bip37(self: Obj(CBloomFilter, heap=True), elem: Bytes):
     ensures(self.contains(elem))
 
 
+@contract('bitcoin.bloom:CBloomFilter.insert', name='insert_outpoint_is_bip37', prop=P)
+def insert_outpoint_is_bip37(self: Obj(CBloomFilter, heap=True), elem: Any, *, h: Bytes(len=32), n: Int):
+    """BOUNDED: an outpoint is inserted and found as the 36 bytes hash + 32-bit little-endian index, for every index
+    0..2^32-1 (the null outpoint's 0xffffffff included), immutable and mutable outpoint objects alike"""
+    option(bounded=300)
+    ensures(bytes(self.vData) == ref_bits_after(old(bytes(self.vData)), self.nHashFuncs, self.nTweak, [h + le_bytes(n, 4)]))
+    ensures(self.contains(elem) and self.contains(h + le_bytes(n, 4)))
+
+
 @contract('bitcoin.bloom:CBloomFilter.__init__', name='init_caps', prop=P)
 def init_caps(self: New(CBloomFilter), nElements: Int, nFPRate: Any, nTweak: Int, nFlags: Int):
     """BOUNDED (floating point sizing): size and hash-function count respect the protocol maxima"""
@@ -140,6 +149,14 @@ def _elem(rng):
     return _bj(bytes(rng.getrandbits(8) for _ in range(n)))
 
 
+def _gen_outpoint_elem(rng):
+    h = bytes(rng.getrandbits(8) for _ in range(32)) if rng.random() < 0.8 else bytes(32)
+    n = rng.choice([0, 1, 2**31 - 1, 2**31, 2**32 - 1, 2**32 - 1, rng.getrandbits(32)])
+    cls = rng.choice(['bitcoin.core:COutPoint', 'bitcoin.core:CMutableOutPoint'])
+    return {'self': _gen_filter(rng), 'elem': {'__obj__': cls, 'args': [_bj(h), n]}, 'h': _bj(h), 'n': n}
+
+
+_replay.GENERATORS['insert_outpoint_is_bip37'] = _gen_outpoint_elem
 _replay.GENERATORS.update({
     'murmur_is_reference': lambda rng: {'nHashSeed': rng.choice([0, 1, 0xFBA4C795, 0xFFFFFFFF, rng.getrandbits(32)]),
                                         'vDataToHash': _elem(rng)},
